@@ -2,7 +2,12 @@
  * patomic-c11.c | patomic-sync.c | patomic-sim.c + pmutex-posix.c) from an op file on stdin.
  * -DPV_VARIANT="c11" names the back-end; the `variant X` op answers ok only for that name.
  * Answer per op: "<returned value | -> <word afterwards>" (unsigned decimal, booleans 1 / 0).
- * The word afterwards is read directly from memory (single-threaded), not through the API. */
+ * The word afterwards is read directly from memory (single-threaded), not through the API.
+ *   T <op …>   the same op executed by a second thread (created and joined for this one op)
+ *   natives    native pthread_mutex_lock / _unlock calls and distinct mutex addresses seen since the last
+ *              `natives` (counted by link-time wrappers that pass the call on)   -> "<locks> <unlocks> <mutexes>"
+ *   init | shutdown   p_atomic_thread_init () / p_atomic_thread_shutdown ()      -> "ok"
+ *   lockfree   p_atomic_is_lock_free ()                                           -> "1" | "0" */
 #include <patomic.h>
 #include <pmem.h>
 #include <stdio.h>
@@ -10,6 +15,20 @@
 #include <string.h>
 #include <stdint.h>
 #include <inttypes.h>
+#include <pthread.h>
+
+/* pass-through wrappers (-Wl,--wrap=pthread_mutex_lock,--wrap=pthread_mutex_unlock): only counting */
+extern int __real_pthread_mutex_lock (pthread_mutex_t *m);
+extern int __real_pthread_mutex_unlock (pthread_mutex_t *m);
+static int n_lock, n_unlock, n_mx;
+static pthread_mutex_t *mx_seen[16];
+static void note_mx (pthread_mutex_t *m) {
+	int i;
+	for (i = 0; i < n_mx; i++) if (mx_seen[i] == m) return;
+	if (n_mx < 16) mx_seen[n_mx++] = m;
+}
+int __wrap_pthread_mutex_lock (pthread_mutex_t *m) { __atomic_add_fetch (&n_lock, 1, __ATOMIC_SEQ_CST); note_mx (m); return __real_pthread_mutex_lock (m); }
+int __wrap_pthread_mutex_unlock (pthread_mutex_t *m) { __atomic_add_fetch (&n_unlock, 1, __ATOMIC_SEQ_CST); note_mx (m); return __real_pthread_mutex_unlock (m); }
 
 extern void p_mem_init (void);
 extern void p_mem_shutdown (void);
@@ -33,39 +52,56 @@ static void out64 (int has_ret, uint64_t r) {
 	else printf ("- %" PRIu64 "\n", (uint64_t) w64);
 }
 
+static void do_line (const char *line);
+
+static void *on_thread (void *arg) { do_line ((const char *) arg); return NULL; }
+
+static void do_line (const char *line) {
+	char op[32], arg[32];
+	unsigned long long a = 0, b = 0;
+	int n = sscanf (line, "%31s %llu %llu", op, &a, &b);
+	if (n < 1) return;
+	if (!strcmp (op, "variant")) {
+		if (sscanf (line, "%*s %31s", arg) == 1 && !strcmp (arg, PV_VARIANT)) puts ("ok"); else puts ("bad-op");
+	}
+	else if (!strcmp (op, "T") && line[0] == 'T' && line[1] == ' ' && strncmp (line + 2, "T ", 2) != 0) {
+		pthread_t th;
+		if (pthread_create (&th, NULL, on_thread, (void *) (line + 2)) != 0) puts ("thread-failed");
+		else pthread_join (th, NULL);
+	}
+	else if (!strcmp (op, "reset") && n == 1) { w32 = 0; w64 = 0; puts ("ok"); }
+	else if (!strcmp (op, "natives") && n == 1) { printf ("%d %d %d\n", n_lock, n_unlock, n_mx); n_lock = n_unlock = n_mx = 0; }
+	else if (!strcmp (op, "init") && n == 1) { p_atomic_thread_init (); puts ("ok"); }
+	else if (!strcmp (op, "shutdown") && n == 1) { p_atomic_thread_shutdown (); puts ("ok"); }
+	else if (!strcmp (op, "lockfree") && n == 1) printf ("%d\n", p_atomic_is_lock_free () ? 1 : 0);
+	/* int-sized word */
+	else if (!strcmp (op, "get32") && n == 1) out32 (1, (uint32_t) p_atomic_int_get (&w32));
+	else if (!strcmp (op, "set32") && n == 2) { p_atomic_int_set (&w32, (pint) (uint32_t) a); out32 (0, 0); }
+	else if (!strcmp (op, "inc32") && n == 1) { p_atomic_int_inc (&w32); out32 (0, 0); }
+	else if (!strcmp (op, "dec32") && n == 1) out32 (1, (uint32_t) p_atomic_int_dec_and_test (&w32));
+	else if (!strcmp (op, "cas32") && n == 3) out32 (1, (uint32_t) p_atomic_int_compare_and_exchange (&w32, (pint) (uint32_t) a, (pint) (uint32_t) b));
+	else if (!strcmp (op, "add32") && n == 2) out32 (1, (uint32_t) p_atomic_int_add (&w32, (pint) (uint32_t) a));
+	else if (!strcmp (op, "and32") && n == 2) out32 (1, (uint32_t) p_atomic_int_and ((volatile puint *) &w32, (puint) a));
+	else if (!strcmp (op, "or32") && n == 2) out32 (1, (uint32_t) p_atomic_int_or ((volatile puint *) &w32, (puint) a));
+	else if (!strcmp (op, "xor32") && n == 2) out32 (1, (uint32_t) p_atomic_int_xor ((volatile puint *) &w32, (puint) a));
+	/* pointer-sized word */
+	else if (!strcmp (op, "get64") && n == 1) out64 (1, (uint64_t) (uintptr_t) p_atomic_pointer_get (&w64));
+	else if (!strcmp (op, "set64") && n == 2) { p_atomic_pointer_set (&w64, (ppointer) (uintptr_t) a); out64 (0, 0); }
+	else if (!strcmp (op, "cas64") && n == 3) out64 (1, (uint64_t) (uint32_t) p_atomic_pointer_compare_and_exchange (&w64, (ppointer) (uintptr_t) a, (ppointer) (uintptr_t) b));
+	else if (!strcmp (op, "add64") && n == 2) out64 (1, (uint64_t) p_atomic_pointer_add (&w64, (pssize) a));
+	else if (!strcmp (op, "and64") && n == 2) out64 (1, (uint64_t) p_atomic_pointer_and (&w64, (psize) a));
+	else if (!strcmp (op, "or64") && n == 2) out64 (1, (uint64_t) p_atomic_pointer_or (&w64, (psize) a));
+	else if (!strcmp (op, "xor64") && n == 2) out64 (1, (uint64_t) p_atomic_pointer_xor (&w64, (psize) a));
+	else puts ("bad-op");
+}
+
 int main (void) {
-	char line[256], op[32];
-	unsigned long long a, b;
+	char line[256];
 	p_mem_init ();
 	p_atomic_thread_init ();
+	n_lock = n_unlock = n_mx = 0;		/* p_mem_init / init may use mutexes of their own */
 	while (fgets (line, sizeof line, stdin)) {
-		char arg[32];
-		a = b = 0;
-		int n = sscanf (line, "%31s %llu %llu", op, &a, &b);
-		if (n < 1) continue;
-		if (!strcmp (op, "variant")) {
-			if (sscanf (line, "%*s %31s", arg) == 1 && !strcmp (arg, PV_VARIANT)) puts ("ok"); else puts ("bad-op");
-		}
-		else if (!strcmp (op, "reset") && n == 1) { w32 = 0; w64 = 0; puts ("ok"); }
-		/* int-sized word */
-		else if (!strcmp (op, "get32") && n == 1) out32 (1, (uint32_t) p_atomic_int_get (&w32));
-		else if (!strcmp (op, "set32") && n == 2) { p_atomic_int_set (&w32, (pint) (uint32_t) a); out32 (0, 0); }
-		else if (!strcmp (op, "inc32") && n == 1) { p_atomic_int_inc (&w32); out32 (0, 0); }
-		else if (!strcmp (op, "dec32") && n == 1) out32 (1, (uint32_t) p_atomic_int_dec_and_test (&w32));
-		else if (!strcmp (op, "cas32") && n == 3) out32 (1, (uint32_t) p_atomic_int_compare_and_exchange (&w32, (pint) (uint32_t) a, (pint) (uint32_t) b));
-		else if (!strcmp (op, "add32") && n == 2) out32 (1, (uint32_t) p_atomic_int_add (&w32, (pint) (uint32_t) a));
-		else if (!strcmp (op, "and32") && n == 2) out32 (1, (uint32_t) p_atomic_int_and ((volatile puint *) &w32, (puint) a));
-		else if (!strcmp (op, "or32") && n == 2) out32 (1, (uint32_t) p_atomic_int_or ((volatile puint *) &w32, (puint) a));
-		else if (!strcmp (op, "xor32") && n == 2) out32 (1, (uint32_t) p_atomic_int_xor ((volatile puint *) &w32, (puint) a));
-		/* pointer-sized word */
-		else if (!strcmp (op, "get64") && n == 1) out64 (1, (uint64_t) (uintptr_t) p_atomic_pointer_get (&w64));
-		else if (!strcmp (op, "set64") && n == 2) { p_atomic_pointer_set (&w64, (ppointer) (uintptr_t) a); out64 (0, 0); }
-		else if (!strcmp (op, "cas64") && n == 3) out64 (1, (uint64_t) (uint32_t) p_atomic_pointer_compare_and_exchange (&w64, (ppointer) (uintptr_t) a, (ppointer) (uintptr_t) b));
-		else if (!strcmp (op, "add64") && n == 2) out64 (1, (uint64_t) p_atomic_pointer_add (&w64, (pssize) a));
-		else if (!strcmp (op, "and64") && n == 2) out64 (1, (uint64_t) p_atomic_pointer_and (&w64, (psize) a));
-		else if (!strcmp (op, "or64") && n == 2) out64 (1, (uint64_t) p_atomic_pointer_or (&w64, (psize) a));
-		else if (!strcmp (op, "xor64") && n == 2) out64 (1, (uint64_t) p_atomic_pointer_xor (&w64, (psize) a));
-		else puts ("bad-op");
+		do_line (line);
 		fflush (stdout);
 	}
 	p_atomic_thread_shutdown ();
